@@ -223,6 +223,10 @@ func vrtFill(v reflect.Value, name string) {
 			if !v.Field(i).CanSet() {
 				continue
 			}
+			if f.Name == "X509Certificate" && v.Field(i).Kind() == reflect.String {
+				v.Field(i).SetString(vrtCertText(name + "." + f.Name))
+				continue
+			}
 			vrtFill(v.Field(i), name+"."+f.Name)
 		}
 	case reflect.Ptr:
